@@ -403,37 +403,54 @@ _bucket_set(Bucket *self, PyObject *keyarg, PyObject *v,
             goto Done;
         }
 
-        /* The key exists at index i, and should be deleted. */
-        DECREF_KEY(self->keys[i]);
-        self->len--;
-        if (i < self->len)
-            memmove(self->keys + i, self->keys + i+1,
-                    sizeof(KEY_TYPE)*(self->len - i));
-
-        if (self->values)
+        /* The key exists at index i, and should be deleted.  The value is
+         * released only after both vectors have been closed up:  releasing
+         * it can run arbitrary code (a __del__) that looks at this bucket
+         * again -- an iterator parked on it, say -- and must not find a key
+         * paired with its neighbour's value.
+         */
         {
-            DECREF_VALUE(self->values[i]);
-            if (i < self->len)
-                memmove(self->values + i, self->values + i+1,
-                        sizeof(VALUE_TYPE)*(self->len - i));
-        }
+            VALUE_TYPE oldvalue;
+            const int has_values = self->values != NULL;
 
-        if (! self->len)
-        {
-            self->size = 0;
-            free(self->keys);
-            self->keys = NULL;
-            if (self->values)
+            DECREF_KEY(self->keys[i]);
+            if (has_values)
             {
-                free(self->values);
-                self->values = NULL;
+                COPY_VALUE(oldvalue, self->values[i]);
             }
-        }
+            self->len--;
+            if (i < self->len)
+            {
+                memmove(self->keys + i, self->keys + i+1,
+                        sizeof(KEY_TYPE)*(self->len - i));
+                if (has_values)
+                    memmove(self->values + i, self->values + i+1,
+                            sizeof(VALUE_TYPE)*(self->len - i));
+            }
 
-        if (changed)
-            *changed = 1;
-        if (PER_CHANGED(self) >= 0)
-            result = 1;
+            if (! self->len)
+            {
+                self->size = 0;
+                free(self->keys);
+                self->keys = NULL;
+                if (has_values)
+                {
+                    free(self->values);
+                    self->values = NULL;
+                }
+            }
+
+            if (changed)
+                *changed = 1;
+            if (PER_CHANGED(self) >= 0)
+                result = 1;
+
+            if (has_values)
+            {
+                DECREF_VALUE(oldvalue);
+            }
+            (void)oldvalue;
+        }
         goto Done;
     }
 
